@@ -8,11 +8,10 @@ import (
 	"math"
 	"math/big"
 	"strconv"
+	"unicode"
 	"unicode/utf8"
 
 	"github.com/ohler55/slip"
-	"golang.org/x/text/cases"
-	"golang.org/x/text/language"
 )
 
 // - 0123456789abcdef0123456789abcdef
@@ -472,21 +471,38 @@ func (c *control) dirCase(colon, at bool, params []any) {
 	case colon && at:
 		c.out = append(c.out, bytes.ToUpper(c2.out)...)
 	case colon:
-		c2.out = bytes.ToLower(c2.out)
-		caser := cases.Title(language.English)
-		c.out = append(c.out, caser.Bytes(c2.out)...)
+		c.out = appendCapitalized(c.out, bytes.ToLower(c2.out), false)
 	case at:
-		c2.out = bytes.ToLower(c2.out)
-		caser := cases.Title(language.English)
-		if i := bytes.Index(c2.out, []byte{' '}); 0 < i {
-			c.out = append(c.out, caser.Bytes(c2.out[:i])...)
-			c.out = append(c.out, c2.out[i:]...)
-		} else {
-			c.out = append(c.out, caser.Bytes(c2.out)...)
-		}
+		c.out = appendCapitalized(c.out, bytes.ToLower(c2.out), true)
 	default:
 		c.out = append(c.out, bytes.ToLower(c2.out)...)
 	}
+}
+
+// appendCapitalized appends the lower case buf to dst with the first character
+// of each word, or of the first word only, made upper case. A word is a run of
+// letters and digits, a word that starts with a digit has no upper case letter.
+func appendCapitalized(dst, buf []byte, firstOnly bool) []byte {
+	var (
+		inWord bool
+		done   bool
+	)
+	for i := 0; i < len(buf); {
+		r, size := utf8.DecodeRune(buf[i:])
+		switch {
+		case !unicode.IsLetter(r) && !unicode.IsDigit(r):
+			done = done || (inWord && firstOnly)
+			inWord = false
+			dst = append(dst, buf[i:i+size]...)
+		case inWord || done:
+			dst = append(dst, buf[i:i+size]...)
+		default:
+			inWord = true
+			dst = utf8.AppendRune(dst, unicode.ToUpper(r))
+		}
+		i += size
+	}
+	return dst
 }
 
 func (c *control) dirMove(colon, at bool, params []any) {
